@@ -3,6 +3,9 @@
 // near-identical, path-traversal shaped, very long and empty strings, with CRLs whose
 // NextUpdate lies before / after now (base and delta independently).
 //
+// Overlapping Set calls (pinned interleavings through the step callbacks of file.WriteFile, and a
+// free-running stress) are in concurrent.go; they are emitted as sequential histories too.
+//
 // Abstract input (Lean `C15.Input`): the URL table (text + the SHA-256 digest the harness
 // computed for it - the digest function of that run) and the operations. A corruption is
 // sent as a `plant` operation whose label (does it unmarshal; which bytes do the two
@@ -18,6 +21,7 @@ package c15
 
 import (
 	"context"
+	"crypto/ed25519"
 	"crypto/rand"
 	"crypto/sha256"
 	"crypto/x509"
@@ -108,6 +112,19 @@ type poolCRL struct {
 type pool struct {
 	t0   time.Time // truncated to the second; abstract time 0
 	crls []*poolCRL
+	refs []CrlRef // what the std-lib says about each pool CRL (id = pool index)
+}
+
+func describe(id int, der []byte, t0 time.Time) CrlRef {
+	r := CrlRef{ID: id}
+	if rl, err := x509.ParseRevocationList(der); err == nil {
+		r.Parses = true
+		if !rl.NextUpdate.IsZero() {
+			nu := rl.NextUpdate.Unix() - t0.Unix()
+			r.NextUpdate = &nu
+		}
+	}
+	return r
 }
 
 const (
@@ -123,18 +140,30 @@ const (
 	pGarbage
 	pDeltaFresh75
 	pDeltaExp75
-	poolSize
+	pDeltaFreshOld // fresh delta whose thisUpdate lies before that of every base CRL
+	poolSize       // the CRLs of the sequential families
+)
+
+// CRLs of the concurrency stage (concurrent.go), signed by an Ed25519 issuer so that their
+// length is fixed: nEq CRLs of exactly equal length, nVar CRLs of pairwise different length
+// (k revoked entries), all with NextUpdate = +3600.
+const (
+	nEq      = 16
+	nVar     = 16
+	pEq0     = poolSize
+	pVar0    = pEq0 + nEq
+	poolFull = pVar0 + nVar
 )
 
 var poolOffsets = map[int]int64{pFresh75a: 75, pFresh75b: 75, pFresh3600: 3600, pFresh30d: 30 * 86400,
-	pExp75a: -75, pExp75b: -75, pExp3600: -3600, pExp30d: -30 * 86400, pDeltaFresh75: 75, pDeltaExp75: -75}
+	pExp75a: -75, pExp75b: -75, pExp3600: -3600, pExp30d: -30 * 86400, pDeltaFresh75: 75, pDeltaExp75: -75, pDeltaFreshOld: 75}
 
 var poolNames = []string{"fresh75a", "fresh75b", "fresh3600", "fresh30d", "exp75a", "exp75b", "exp3600", "exp30d",
-	"zeroNU", "garbage", "deltaFresh75", "deltaExp75"}
+	"zeroNU", "garbage", "deltaFresh75", "deltaExp75", "deltaFreshOld"}
 
 var oidDeltaCRLIndicator = asn1.ObjectIdentifier{2, 5, 29, 27}
 
-func mintPool(ca *common.Cert) *pool {
+func mintPool(ca, edca *common.Cert) *pool {
 	p := &pool{t0: time.Now().Truncate(time.Second)}
 	for i := 0; i < poolSize; i++ {
 		pc := &poolCRL{name: poolNames[i]}
@@ -157,9 +186,21 @@ func mintPool(ca *common.Cert) *pool {
 			if nu.Before(this) {
 				this = nu.Add(-time.Hour)
 			}
-			t := &x509.RevocationList{Number: big.NewInt(int64(100 + i)), ThisUpdate: this, NextUpdate: nu,
+			if i == pDeltaFreshOld {
+				this = p.t0.Add(-2 * time.Hour)
+			}
+			// CRL numbers: fresh75a / fresh75b / fresh3600 are re-issues under ONE number (different
+			// bytes, same number), so are the two fresh deltas; the bytes, not the number, are the identity
+			number := int64(100 + i)
+			switch i {
+			case pFresh75a, pFresh75b, pFresh3600:
+				number = 100
+			case pDeltaFresh75, pDeltaFreshOld:
+				number = 150
+			}
+			t := &x509.RevocationList{Number: big.NewInt(number), ThisUpdate: this, NextUpdate: nu,
 				RevokedCertificateEntries: []x509.RevocationListEntry{{SerialNumber: big.NewInt(int64(7000 + i)), RevocationTime: this}}}
-			if i == pDeltaFresh75 || i == pDeltaExp75 {
+			if i == pDeltaFresh75 || i == pDeltaExp75 || i == pDeltaFreshOld {
 				v, _ := asn1.Marshal(big.NewInt(100))
 				t.ExtraExtensions = []pkix.Extension{{Id: oidDeltaCRLIndicator, Critical: true, Value: v}}
 			}
@@ -181,6 +222,39 @@ func mintPool(ca *common.Cert) *pool {
 	if !p.crls[pZeroNU].rl.NextUpdate.IsZero() {
 		panic("zero-NextUpdate CRL could not be minted")
 	}
+	// concurrency stage
+	this, nu := p.t0.Add(-time.Hour), p.t0.Add(time.Hour)
+	for i := 0; i < nEq+nVar; i++ {
+		t := &x509.RevocationList{Number: big.NewInt(int64(300 + i)), ThisUpdate: this, NextUpdate: nu}
+		name := fmt.Sprintf("eq%d", i)
+		n := 1
+		if i >= nEq {
+			n = i - nEq // 0..nVar-1 entries
+			name = fmt.Sprintf("var%d", n)
+		}
+		for k := 0; k < n; k++ {
+			t.RevokedCertificateEntries = append(t.RevokedCertificateEntries,
+				x509.RevocationListEntry{SerialNumber: big.NewInt(int64(9000 + 20*i + k)), RevocationTime: this})
+		}
+		der, err := x509.CreateRevocationList(rand.Reader, t, edca.Cert, edca.Key)
+		must(err)
+		rl, err := x509.ParseRevocationList(der)
+		must(err)
+		p.crls = append(p.crls, &poolCRL{name: name, der: der, rl: rl})
+	}
+	for i := 1; i < nEq; i++ {
+		if len(p.crls[pEq0+i].der) != len(p.crls[pEq0].der) {
+			panic("equal-length CRLs differ in length")
+		}
+	}
+	for i := 1; i < nVar; i++ {
+		if len(p.crls[pVar0+i].der) <= len(p.crls[pVar0+i-1].der) {
+			panic("variable-length CRLs are not increasing in length")
+		}
+	}
+	for i, pc := range p.crls {
+		p.refs = append(p.refs, describe(i, pc.der, p.t0))
+	}
 	return p
 }
 
@@ -200,15 +274,7 @@ func (w *world) ref(der []byte) *CrlRef {
 	if !ok {
 		id = len(w.reg)
 		w.reg[string(der)] = id
-		r := CrlRef{ID: id}
-		if rl, err := x509.ParseRevocationList(der); err == nil {
-			r.Parses = true
-			if !rl.NextUpdate.IsZero() {
-				nu := rl.NextUpdate.Unix() - w.p.t0.Unix()
-				r.NextUpdate = &nu
-			}
-		}
-		w.refs[id] = r
+		w.refs[id] = describe(id, der, w.p.t0)
 	}
 	r := w.refs[id]
 	return &r
@@ -282,7 +348,9 @@ func must(err error) {
 }
 
 // site is the directory tree around the cache root, built once and checked after every case:
-//   dir/{etc/passwd, b, outer/{victim.txt, b, sibling/keep, cache/}}
+//
+//	dir/{etc/passwd, b, outer/{victim.txt, b, sibling/keep, cache/}}
+//
 // so that every traversal-shaped URL, were it used as a path, would hit a sentinel.
 // (Creating and deleting the whole tree per case costs milliseconds on this file system; the
 // root is emptied after every case.)
@@ -353,8 +421,9 @@ func newWorld(s *site, p *pool) *world {
 	fc, err := crl.NewFileCache(s.root)
 	must(err)
 	w := &world{site: s, dir: s.dir, root: s.root, cache: fc, p: p, reg: map[string]int{}, refs: map[int]CrlRef{}}
-	for _, pc := range p.crls {
-		w.ref(pc.der)
+	for i, pc := range p.crls {
+		w.reg[string(pc.der)] = i
+		w.refs[i] = p.refs[i]
 	}
 	return w
 }
@@ -662,9 +731,15 @@ func (w *world) execute(c *common.Ctx, pl plan) (Input, Obs) {
 		in.Ops = append(in.Ops, op)
 		obs.Results = append(obs.Results, out)
 	}
-	// final state of the root and its surroundings
+	w.finalState(pl.urls, &obs)
+	return in, obs
+}
+
+// finalState: which entry files exist, what else lives in the root, did anything around it change;
+// then empties the root for the next case.
+func (w *world) finalState(urls []string, obs *Obs) {
 	names := map[string]bool{}
-	for _, u := range pl.urls {
+	for _, u := range urls {
 		n := hexName(u)
 		names[n] = true
 		fi, err := os.Lstat(filepath.Join(w.root, n))
@@ -689,7 +764,6 @@ func (w *world) execute(c *common.Ctx, pl plan) (Input, Obs) {
 			os.RemoveAll(filepath.Join(w.root, e.Name()))
 		}
 	}
-	return in, obs
 }
 
 // set / get call the real cache; a panic is reported as its own result kind
@@ -739,6 +813,26 @@ var nearURLs = []string{"http://a/crl", "http://a/crl/", "http://A/crl", "http:/
 var traversalURLs = []string{"../../etc/passwd", "/abs/path", "a/../../b", "..", ".", "/", "../victim.txt", "../sibling/keep",
 	"..\\..\\etc\\passwd", "notation-123456", "%2e%2e%2fvictim.txt", "./x", "../../../../../../../../etc/passwd", "sibling/../../b"}
 
+// prefixURLs: realistic long URLs (LDAP / HTTP distribution points) that agree on a long prefix
+// and differ only in their tail, with the first difference at byte 64, 128, 255, 256, 257, 300,
+// 512, 1024, 4096 - a key derived from a bounded prefix of the URL makes some of them collide.
+func prefixURLs() []string {
+	var out []string
+	base := "ldap://directory.example.com/CN=Example%20Issuing%20CA%201,OU=Certification%20Authorities,O=Example%20Corporation,C=US"
+	for _, at := range []int{64, 128, 255, 256, 257, 300, 512, 1024, 4096} {
+		p := base
+		for len(p) < at {
+			p += ",OU=Level" + fmt.Sprint(len(p))
+		}
+		p = p[:at]
+		out = append(out, p+"?certificateRevocationList;binary?base?objectClass=cRLDistributionPoint",
+			p+"?deltaRevocationList;binary?base?objectClass=cRLDistributionPoint")
+	}
+	h := "http://crl.example.com/crl?issuer=" + strings.Repeat("0123456789abcdef", 20)
+	out = append(out, h, h+"&delta=1", h+"&delta=2", h[:256], h[:257])
+	return out
+}
+
 func longURLs() []string {
 	a := strings.Repeat("a", 10000)
 	return []string{a, a + "b", "http://a/" + strings.Repeat("../", 3400), strings.Repeat("/", 10000)}
@@ -747,16 +841,18 @@ func longURLs() []string {
 type gen struct {
 	c       *common.Ctx
 	ca      *common.Cert
+	edca    *common.Cert // Ed25519 issuer of the fixed-length CRLs of the concurrency stage
 	p       *pool
 	n       int
 	site    *site
 	long    []string
+	prefix  []string
 	special []string
 }
 
 func (g *gen) pool() *pool {
 	if g.p == nil || time.Since(g.p.t0) > maxPoolAge {
-		g.p = mintPool(g.ca)
+		g.p = mintPool(g.ca, g.edca)
 		g.c.Count("pool-minted")
 	}
 	return g.p
@@ -796,6 +892,13 @@ func (g *gen) pickURLs() []string {
 	if r.Intn(40) == 0 {
 		add(g.long[r.Intn(len(g.long))])
 		g.c.Count("url=long")
+	}
+	if r.Intn(8) == 0 {
+		// two URLs of one prefix group (they differ only in the tail)
+		k := r.Intn(len(g.prefix) - 1)
+		add(g.prefix[k])
+		add(g.prefix[k+1])
+		g.c.Count("url=long-common-prefix")
 	}
 	if r.Intn(5) == 0 {
 		add(g.special[r.Intn(len(g.special))])
@@ -850,7 +953,11 @@ func (g *gen) randomCase() plan {
 // Run generates the cases of C15.
 func Run(c *common.Ctx) error {
 	g := &gen{c: c, ca: common.MakeCert(common.CertOpts{Subject: common.Name("C15 CRL issuer"), CA: true, PathLen: -1,
-		KeyUsage: x509.KeyUsageCertSign | x509.KeyUsageCRLSign}), long: longURLs()}
+		KeyUsage: x509.KeyUsageCertSign | x509.KeyUsageCRLSign}), long: longURLs(), prefix: prefixURLs()}
+	_, edKey, err := ed25519.GenerateKey(rand.Reader)
+	must(err)
+	g.edca = common.MakeCert(common.CertOpts{Subject: common.Name("C15 fixed-length CRL issuer"), CA: true, PathLen: -1,
+		KeyUsage: x509.KeyUsageCertSign | x509.KeyUsageCRLSign, Key: edKey})
 	g.special = []string{"", hexName("http://a/crl"), filepath.Join("..", "cache", hexName("http://a/crl")), "http://a/crl"}
 
 	// A. every (base, delta) combination of the pool, stored and read back; a sibling URL stays a miss
@@ -897,6 +1004,32 @@ func Run(c *common.Ctx) error {
 			pairs++
 		}
 	}
+	// H. re-issued CRLs: same CRL number, different bytes, stored one after the other under one URL
+	sameNo := []int{pFresh75a, pFresh75b, pFresh3600}
+	for _, x := range sameNo {
+		for _, y := range sameNo {
+			if x == y {
+				continue
+			}
+			for _, d := range [][2]int{{-1, -1}, {pDeltaFresh75, pDeltaFresh75}, {pDeltaFresh75, pDeltaFreshOld}, {pDeltaFreshOld, pDeltaFresh75}} {
+				g.run(plan{urls: []string{"http://a/crl", "http://a/crl/"}, ops: []planOp{
+					{kind: "set", url: 0, base: x, delta: d[0]}, {kind: "get", url: 0},
+					{kind: "set", url: 0, base: y, delta: d[1]}, {kind: "get", url: 0}, {kind: "get", url: 1},
+					{kind: "set", url: 0, base: x, delta: d[0]}, {kind: "get", url: 0}}}, "H:same-number-reissue")
+			}
+		}
+	}
+	// P. long URLs with a long common prefix, every pair within the catalogue
+	for i := range g.prefix {
+		for j := range g.prefix {
+			if i == j || (!c.Thorough() && j != i+1 && j != i-1 && (i+j)%5 != 0) {
+				continue
+			}
+			g.run(plan{urls: []string{g.prefix[i], g.prefix[j]}, ops: []planOp{
+				{kind: "set", url: 0, base: pFresh75a, delta: -1}, {kind: "get", url: 1}, {kind: "get", url: 0},
+				{kind: "set", url: 1, base: pFresh75b, delta: pDeltaFresh75}, {kind: "get", url: 0}, {kind: "get", url: 1}}}, "P:long-common-prefix")
+		}
+	}
 	// D. the very long URLs, each against each other and a short one
 	for i := range g.long {
 		j := (i + 1) % len(g.long)
@@ -905,6 +1038,8 @@ func Run(c *common.Ctx) error {
 			{kind: "set", url: 1, base: pFresh75b, delta: -1}, {kind: "get", url: 0}, {kind: "get", url: 1},
 			{kind: "plant", url: 0, base: pFresh75a, delta: -1, co: corruption{"truncate", 3}}, {kind: "get", url: 0}, {kind: "get", url: 1}}}, "D:long-urls")
 	}
+	// F, G. overlapping Set calls: pinned interleavings and a free-running stress (concurrent.go)
+	runConcurrent(g, c)
 	// E. random operation sequences
 	n := 2500
 	if c.Thorough() {
